@@ -5,6 +5,7 @@ callback deliveries M; it then re-runs the history once for every pair (delivery
 appends the closing sequence ``enable; dispatch; enable; dispatch; enable``.
 """
 import collections
+import gc
 
 import desper
 from hypothesis import strategies as st
@@ -74,7 +75,9 @@ class Tok:
 def decode_op(t):
     sel, p = t
     kind = ('dispatch', 'dispatch', 'dispatch', 'dispatch', 'dispatch', 'dispatch', 'disable', 'disable', 'enable',
-            'enable', 'add', 'add', 'remove', 'spawn')[sel % 14]
+            'enable', 'add', 'add', 'remove', 'spawn', 'forget', 'forget')[sel % 16]
+    if kind == 'forget':
+        return ['forget', p % 4]
     if kind == 'spawn':
         return ['spawn', p % 3]
     if kind == 'dispatch':
@@ -85,7 +88,7 @@ def decode_op(t):
 
 
 def strategy():
-    op = st.tuples(st.integers(0, 13), st.integers(0, 15)).map(decode_op)
+    op = st.tuples(st.integers(0, 15), st.integers(0, 15)).map(decode_op)
     return st.fixed_dictionaries({
         'kind': st.integers(0, 1),
         'handlers': st.lists(st.integers(1, 15), min_size=1, max_size=4),
@@ -214,14 +217,15 @@ class Execution:
                     self.enabled = False
                 self.set_enabled_nested()
             else:
+                # (no local variable may hold the exception: exception -> traceback -> this frame -> local would be
+                # a reference cycle that keeps the handler of this frame alive until the next cycle collection)
                 if kind == 'RuntimeError':
-                    exc = Boom('injected')
+                    self.current_exc = Boom('injected')
                 elif kind == 'Quit':
-                    exc = desper.Quit()
+                    self.current_exc = desper.Quit()
                 else:
-                    exc = desper.SwitchWorld(desper.Handle())
-                self.current_exc = exc
-                raise exc
+                    self.current_exc = desper.SwitchWorld(desper.Handle())
+                raise self.current_exc
 
     def set_enabled_nested(self):
         self.enabled = True
@@ -279,10 +283,10 @@ class Execution:
             this_ev = self.choose_event(sel)
             try:
                 for zi, z in enumerate(EVENTS):
-                    if z != this_ev and any(z in self.handlers[h].evs for h in self.registered if h < self.nfixed):
+                    if z != this_ev and any(z in self.handlers[h].evs for h in self.registered if h < 100):
                         self.op_dispatch(12 + zi)
                 waiting = {self.queued[t]['event'] for t in self.incomplete if t in self.queued}
-                away = [h for h in sorted(self.registered) if h < self.nfixed
+                away = [h for h in sorted(self.registered) if h < 100
                         and (self.handlers[h].evs & (waiting - {this_ev}))]
                 for h in away:
                     self.op_remove(h)
@@ -395,19 +399,43 @@ class Execution:
             self.viol('injected_exception_swallowed_by_create_entity', injected=repr(self.current_exc))
 
     def op_add(self, hix):
-        hix %= self.nfixed
+        hix = self.slot[hix % self.nfixed] if hix < 50 else hix
         self.guarded(lambda: self.d.add_handler(self.handlers[hix]), 'add_handler')
         self.registered.add(hix)
 
     def op_remove(self, hix):
-        hix %= self.nfixed
+        hix = self.slot[hix % self.nfixed] if hix < 50 else hix
         self.guarded(lambda: self.d.remove_handler(self.handlers[hix]), 'remove_handler')
         self.registered.discard(hix)
+
+    def op_forget(self, sel):
+        """the program drops its last reference to a handler (nobody calls remove_handler): the dispatcher held it
+        weakly, it is gone - a NEW handler object listening to the same events takes its slot and may be
+        registered later; what is pending then reaches it like any handler registered at delivery time"""
+        slot = sel % self.nfixed
+        old = self.slot[slot]
+        if self.replacements >= 40:
+            return
+        new = 50 + self.replacements
+        self.replacements += 1
+        mask = self.case['handlers'][slot]
+        self.handlers[new] = make_handler(self, new, mask)
+        self.slot[slot] = new
+        was_registered = old in self.registered
+        self.registered.discard(old)
+        del self.handlers[old]
+        # (reference counting frees it at once: handlers are not part of reference cycles)
+        if was_registered:
+            self.flags['registered_handler_garbage_collected'] += 1
+            if self.incomplete:
+                self.flags['handler_collected_while_events_pending'] += 1
 
     def run(self):
         self.d = desper.World() if self.case['kind'] else desper.EventDispatcher()
         self.handlers = {i: make_handler(self, i, m) for i, m in enumerate(self.case['handlers'])}
         self.nfixed = len(self.handlers)
+        self.slot = {i: i for i in range(self.nfixed)}     # slot -> id of the handler object that fills it now
+        self.replacements = 0
         self.spawned = 0
         self.keep = []
         self.registered = set()
